@@ -139,7 +139,9 @@ class walk_tree(object):
                     if child.is_segment():
                         if child.is_match(seg_data):
                             # Is the matched segment the beginning of a loop?
-                            if node.is_loop() \
+                            # (a wrapper - HEADER, DETAIL, FOOTER - does not repeat: its first
+                            # segment coming again is that segment repeating)
+                            if node.is_loop() and getattr(node, 'type', None) != 'wrapper' \
                                     and self._is_loop_match(node, seg_data, errh, seg_count, cur_line, ls_id):
                                 # The loop repeats right after its first segment: the rest of
                                 # the instance being left was never walked
